@@ -146,13 +146,149 @@ class ParseBody(FunctionContract):
                  r.t == self.S(self.P(self.text)))]
 
 
+class ParseTerminal(FunctionContract):
+    """_ExtendedParser.parse_terminal(pstate): the tagged-identifier rule.  The lexer state is a position into the token list
+    (tags TAG[i], texts STR[i], n tokens; A-LEXSTATE: pytools.lex.LexIterator's next_tag / next_str_and_advance / expect /
+    is_next as read from its source; tags are interned strings, so `is` on them is equality).
+
+    If the next token is `<`:  the rule consumes exactly  `<` identifier `>` [identifier]  and returns the variable whose name is
+    the concatenation of exactly those texts; it raises ParseError when the second token is not an identifier or the third is
+    not `>`; nothing else is accepted as the name part (a keyword, a number, an operator after the `>` is left to the caller).
+    Otherwise the call is handed to pymbolic's parse_terminal unchanged."""
+    prop = PROP
+    relpath = "dagrt/expression.py"
+    qualname = "_ExtendedParser.parse_terminal"
+    strings_symbolic = True
+    TAGS = {"_less": 1, "_identifier": 2, "_greater": 3}
+    exc_hierarchy = {"ParseError": ["Exception"], "IndexError": ["Exception"]}
+
+    def __init__(self):
+        self.n = z3.Int("number_of_tokens")
+        self.p0 = z3.Int("position_at_entry")
+        self.TAG = z3.Array("TAG", z3.IntSort(), z3.IntSort())
+        self.STR = z3.Array("STR", z3.IntSort(), z3.StringSort())
+
+    def params(self, ctx):
+        ctx.ghost["pos"] = self.p0
+        ctx.ghost["super_called_at"] = z3.IntVal(-1)
+        ps = VObj(TObj("LexIterator", {}), {
+            "next_tag": VFunc("next_tag", self.m_next_tag), "next_str_and_advance": VFunc("nsa", self.m_nsa),
+            "expect": VFunc("expect", self.m_expect), "is_next": VFunc("is_next", self.m_is_next)})
+        ctx.env["pstate"] = ps
+        ctx.env["self"] = VObj(TObj("Parser", {}), {})
+
+    def requires(self, st):
+        return [("the-caller-checked-not-at-end", And(self.p0 >= 0, self.p0 < self.n))]
+
+    def _tag_arg(self, ctx, args):
+        a = ctx.deref(args[0])
+        if not isinstance(a, VInt):
+            raise Unsupported("lexer tag %r" % (a,))
+        return a.t
+
+    def m_next_tag(self, ctx, it, args, kw):
+        if args or kw:
+            raise Unsupported("next_tag with a look-ahead")
+        p = ctx.ghost["pos"]
+        if not ctx.branch(p < self.n, "next_tag-in-range"):
+            ctx.raise_("IndexError")
+        return VInt(z3.Select(self.TAG, p))
+
+    def m_nsa(self, ctx, it, args, kw):
+        p = ctx.ghost["pos"]
+        if not ctx.branch(p < self.n, "next_str-in-range"):
+            ctx.raise_("IndexError")
+        ctx.ghost["pos"] = p + 1
+        return VStr(z3.Select(self.STR, p))
+
+    def m_expect(self, ctx, it, args, kw):
+        t = self._tag_arg(ctx, args)
+        p = ctx.ghost["pos"]
+        if not ctx.branch(And(p < self.n, z3.Select(self.TAG, p) == t), "expect"):
+            ctx.raise_("ParseError")
+        return NONE
+
+    def m_is_next(self, ctx, it, args, kw):
+        if len(args) != 1 or kw:
+            raise Unsupported("is_next with a look-ahead")
+        t = self._tag_arg(ctx, args)
+        p = ctx.ghost["pos"]
+        return VBool(And(p < self.n, z3.Select(self.TAG, p) == t))
+
+    def m_super(self, ctx, it, args, kw):
+        a = ctx.deref(args[0]) if len(args) == 1 and not kw else None
+        if not (isinstance(a, VObj) and a.ty.name == "LexIterator"):
+            raise Unsupported("super().parse_terminal(%r)" % (args,))
+        ctx.ghost["super_called_at"] = ctx.ghost["pos"]
+        return VPy("<pymbolic parse_terminal(pstate)>")
+
+    def m_variable(self, ctx, it, args, kw):
+        a = ctx.deref(args[0]) if len(args) == 1 and not kw else None
+        if not isinstance(a, VStr):
+            raise Unsupported("Variable(%r)" % (args,))
+        return VNode(z3.BoolVal(True), a.t)
+
+    def getattr_hook(self, ctx, it, obj, name):
+        o = ctx.deref(obj)
+        if isinstance(o, VPy) and o.py == "primitives" and name == "Variable":
+            return VFunc("Variable", self.m_variable)
+        return None
+
+    calls = property(lambda self: {"super().parse_terminal": self.m_super})
+
+    @property
+    def names(self):
+        # every lexer tag the module imports from pymbolic.parser is a distinct interned string
+        from pyvc import extract
+        tree, _ = extract.parse_module(self.relpath)
+        tags = dict(self.TAGS)
+        for n in tree.body:
+            if isinstance(n, pyast.ImportFrom) and n.module == "pymbolic.parser":
+                for al in n.names:
+                    nm = al.asname or al.name
+                    if al.name.startswith("_") and al.name not in tags:
+                        tags[nm] = 10 + sum(ord(c) * (i + 1) for i, c in enumerate(al.name))
+                    elif al.name in self.TAGS:
+                        tags[nm] = self.TAGS[al.name]
+        return dict({k: VInt(z3.IntVal(v)) for k, v in tags.items()}, primitives=VPy("primitives"))
+
+    def _tagged(self):
+        T, p0 = self.TAG, self.p0
+        return z3.Select(T, p0) == 1
+
+    def ensures(self, st):
+        T, S, p0, n = self.TAG, self.STR, self.p0, self.n
+        pos = st.g("pos")
+        r = st.result
+        tagged = self._tagged()
+        has_name = And(p0 + 3 < n, z3.Select(T, p0 + 3) == 2)
+        base = z3.Concat(z3.Select(S, p0), z3.Select(S, p0 + 1), z3.Select(S, p0 + 2))
+        if isinstance(r, VPy):
+            return [("only-a-token-other-than-`<`-goes-to-pymbolic's-rule(with-the-lexer-where-it-was)",
+                     And(Not(tagged), st.g("super_called_at") == p0, pos == p0))]
+        if not isinstance(r, VNode):
+            return [("returns-a-variable", z3.BoolVal(False))]
+        return [("a-tagged-identifier-is-`<`-identifier-`>`", And(tagged, p0 + 2 < n, z3.Select(T, p0 + 1) == 2,
+                                                                   z3.Select(T, p0 + 2) == 3)),
+                ("the-name-part-is-taken-exactly-when-an-identifier-follows(no-keyword,-number-or-operator)",
+                 pos == If(has_name, p0 + 4, p0 + 3)),
+                ("the-variable's-name-is-the-text-of-exactly-the-consumed-tokens",
+                 r.name == If(has_name, z3.Concat(base, z3.Select(S, p0 + 3)), base))]
+
+    raises = property(lambda self: {"ParseError": lambda st: [
+        ("ParseError-only-when-`<`-is-not-followed-by-identifier-`>`",
+         And(self._tagged(), Not(And(self.p0 + 2 < self.n, z3.Select(self.TAG, self.p0 + 1) == 2,
+                                     z3.Select(self.TAG, self.p0 + 2) == 3))))]})
+
+
 def units():
-    return [FunctionUnit(RemoveBackticks()), FunctionUnit(ParseBody())]
+    return [FunctionUnit(RemoveBackticks()), FunctionUnit(ParseBody()), FunctionUnit(ParseTerminal())]
 
 
 LEVEL = "exploration"
 BOUNDED = {"quick": {"timeout_s": 90}, "thorough": {"timeout_s": 900}}
-TRUSTED_BASE = ["A-SUBST: pymbolic SubstitutionMapper descends exactly when the substitution function returns None"]
+TRUSTED_BASE = ["A-SUBST: pymbolic SubstitutionMapper descends exactly when the substitution function returns None",
+                "A-LEXSTATE: pytools.lex.LexIterator: next_tag() = tag at the position (IndexError at the end), next_str_and_advance() = text at the position, then position + 1, expect(t) raises ParseError unless the next tag is t, is_next(t) = not at the end and the next tag is t; lexer tags are interned strings (identity = equality)"]
 ASSUMPTIONS = [
     "the round-trip contract parse(str(e)) == e (prints identically, same variables, same value under valuations) is only evaluated on enumerated / random expressions of the real dagrt.expression.parse and pymbolic's printer: bounded, never counted as proved",
     "only the backtick post-pass (parse.remove_backticks) and the body of parse (parser, then the post-pass, once) are under deductive contract; pymbolic's parser and SubstitutionMapper are uninterpreted there",
